@@ -174,6 +174,22 @@ def d22_multidict_update_drop_tails(prop, mech, case, info, variant):
     return False
 
 
+@finding("D29", ["C19"])
+def d29_cache_size_overflow(prop, mech, case, info, variant):
+    """Mechanism: cache_configure() hands the size straight to functools.lru_cache, whose C implementation needs an
+    index-sized integer.  Input predicate: the entry point is cache_configure and the offending size is an int that does
+    not fit in Py_ssize_t.  Bug model, exact: the leaked exception is OverflowError (nothing else, and no smaller size)."""
+    import sys
+
+    if mech != "exception_type" or case.get("at") != "cache_configure":
+        return False
+    try:
+        v = int(case.get("value", ""))
+    except (TypeError, ValueError):
+        return False
+    return abs(v) > sys.maxsize and "raised OverflowError" in (info.get("_detail") or "")
+
+
 @finding("D17", ["C06"])
 def d17_query_replaces_undecodable(prop, mech, case, info, variant):
     """Mechanism: the raw query contains an escape run that is not valid UTF-8;
